@@ -35,72 +35,101 @@ def flatten(cfg, prefix=""):
 
 
 def run(ctx):
-    from redun.cli import get_config_dir
+    import os
+
+    from redun.cli import REDUN_CONFIG_ENV, get_config_dir
     from redun.config import Config
 
-    cfgdir = get_config_dir()
-    vals = values(cfgdir)
     n = 0
     distinct = set()
     samples = []
-    # every non-empty subset of sections (<=3) x for each section one or two keys x every value kind
-    sec_sets = [s for r in (1, 2, 3) for s in itertools.combinations(SECTIONS, r)]
-    for secs in ctx.rotate(sec_sets):
-        for (kind1, v1), (kind2, v2) in itertools.product(vals, vals[: ctx.pick(4, len(vals))]):
-            lines = []
-            uses_ref = "ref" in (kind1, kind2)
-            if uses_ref and "a" not in secs:
-                continue
-            for i, s in enumerate(secs):
-                lines.append(f"[{s}]")
-                if s == "a":
-                    lines.append("x = base")
-                    if kind1 != "ref":
-                        lines.append(f"y = {v1}")
-                else:
-                    lines.append(f"x = {v1}" if not (kind1 == "percent") else f"x = lit\nZ = {v1}")
-                    lines.append(f"y = {v2}")
-            text = "\n".join(lines) + "\n"
-            c = Config()
-            try:
-                c.read_string(text)
-                before = flatten(c)
-            except Exception:
-                continue  # the loader rejects this text: outside the statement
-            if any(v[0] == "err" for v in before.values()):
-                continue  # original config itself cannot be read (e.g. bad interpolation): not a round-trip question
-            n += 1
-            distinct.add((secs, kind1, kind2))
-            case = {"ini": text}
-            sigk = f"{kind1}" if kind1 == kind2 else f"{kind1}+{kind2}"
-            try:
-                d = c.get_config_dict()
-                c2 = Config(config_dict=d)
-                after = flatten(c2)
-            except Exception as e:  # noqa: BLE001
-                ctx.violation(f"roundtrip-raises:{type(e).__name__}:{sigk}", case, f"{text!r}: {e!r}")
-                continue
-            if set(after) != set(before):
-                ctx.violation(f"sections-differ:{sigk}", case, f"{text!r}: {sorted(set(before) ^ set(after))}")
-                continue
-            bad = [(k, before[k], after[k]) for k in before if before[k] != after[k]]
-            if bad:
-                kinds = sorted({kind1 if k[1] in ("x", "Z") else kind2 for k, _, _ in bad})
-                ctx.violation(f"value-differs:{'+'.join(kinds)}", case, f"{text!r}: {bad[:3]}")
-            # replace_config_dir only touches values containing the local config dir
-            d2 = c.get_config_dict(replace_config_dir="NEW")
-            for sec, opts in d.items():
-                for k, v in opts.items():
-                    exp = v.replace(cfgdir, "NEW") if isinstance(v, str) else v
-                    if d2[sec][k] != exp:
-                        ctx.violation("replace-config-dir", case, f"{sec}.{k}: {v!r} -> {d2[sec][k]!r}, expected {exp!r}")
-            if len(samples) < 3 and len(secs) == 2:
-                samples.append(text)
+    saved_env = os.environ.get(REDUN_CONFIG_ENV)
+    # (local config dir as configured, replacement): the default one, one with a literal '$', two that are not in normal form
+    combos = [(None, "NEW"), ("/data/$proj/.redun", "NEW"), (None, "/mnt/$remote/.redun"), ("/x/.redun/", "NEW"), ("/x/./.redun", "NEW"), ("/x/.redun", "/x/.redun/sub")]
+    try:
+        for ci, (cfg_env, repl) in enumerate(combos):
+            if cfg_env is None:
+                os.environ.pop(REDUN_CONFIG_ENV, None)
+            else:
+                os.environ[REDUN_CONFIG_ENV] = cfg_env
+            cfgdir = get_config_dir()
+            vals = values(cfgdir.replace("$", "$$"))  # written in INI syntax: a literal dollar is doubled
+            if cfgdir.endswith("/"):
+                vals.append(("path-without-slash", cfgdir.rstrip("/")))  # does NOT contain the configured dir: must stay as it is
+            # every non-empty subset of sections (<=3) x for each section one or two keys x every value kind
+            sec_sets = [s for r in ((1, 2, 3) if ci == 0 else (1, 2)) for s in itertools.combinations(SECTIONS, r)]
+            for secs in ctx.rotate(sec_sets):
+                for (kind1, v1), (kind2, v2) in itertools.product(vals, vals[: ctx.pick(4, len(vals))]):
+                    if ci > 0 and not (kind1.startswith("path") or kind2.startswith("path")):
+                        continue  # the other config-dir combinations only matter for values that mention the directory
+                    lines = []
+                    uses_ref = "ref" in (kind1, kind2)
+                    if uses_ref and "a" not in secs:
+                        continue
+                    for i, s_ in enumerate(secs):
+                        lines.append(f"[{s_}]")
+                        if s_ == "a":
+                            lines.append("x = base")
+                            if kind1 != "ref":
+                                lines.append(f"y = {v1}")
+                        else:
+                            lines.append(f"x = {v1}" if not (kind1 == "percent") else f"x = lit\nZ = {v1}")
+                            lines.append(f"y = {v2}")
+                    text = "\n".join(lines) + "\n"
+                    c = Config()
+                    try:
+                        c.read_string(text)
+                        before = flatten(c)
+                    except Exception:
+                        continue  # the loader rejects this text: outside the statement
+                    if any(v[0] == "err" for v in before.values()):
+                        continue  # original config itself cannot be read (e.g. bad interpolation): not a round-trip question
+                    n += 1
+                    distinct.add((secs, kind1, kind2, ci))
+                    case = {"ini": text, "config_dir": cfgdir, "replace_config_dir": repl}
+                    sigk = f"{kind1}" if kind1 == kind2 else f"{kind1}+{kind2}"
+                    if ci == 0:
+                        try:
+                            d = c.get_config_dict()
+                            c2 = Config(config_dict=d)
+                            after = flatten(c2)
+                        except Exception as e:  # noqa: BLE001
+                            ctx.violation(f"roundtrip-raises:{type(e).__name__}:{sigk}", case, f"{text!r}: {e!r}")
+                            continue
+                        if set(after) != set(before):
+                            ctx.violation(f"sections-differ:{sigk}", case, f"{text!r}: {sorted(set(before) ^ set(after))}")
+                            continue
+                        bad = [(k, before[k], after[k]) for k in before if before[k] != after[k]]
+                        if bad:
+                            kinds = sorted({kind1 if k[1] in ("x", "Z") else kind2 for k, _, _ in bad})
+                            ctx.violation(f"value-differs:{'+'.join(kinds)}", case, f"{text!r}: {bad[:3]}")
+                    # replace_config_dir: reading the rewritten dict back gives the original effective values with the local config dir, and
+                    # only it, replaced
+                    combo_sig = f"dir={'default' if cfg_env is None else cfg_env}:to={repl}"
+                    try:
+                        d2 = c.get_config_dict(replace_config_dir=repl)
+                        after2 = flatten(Config(config_dict=d2))
+                    except Exception as e:  # noqa: BLE001
+                        ctx.violation(f"replace-config-dir-raises:{type(e).__name__}:{combo_sig}", case, f"config dir {cfgdir!r} -> {repl!r}, {text!r}: {e!r}")
+                        continue
+                    exp2 = {k: (st, v.replace(cfgdir, repl) if isinstance(v, str) else v) for k, (st, v) in before.items()}
+                    bad2 = [(k, exp2[k], after2.get(k)) for k in exp2 if after2.get(k) != exp2[k]]
+                    if bad2:
+                        ctx.violation(f"replace-config-dir:{combo_sig}", case, f"config dir {cfgdir!r} -> {repl!r}, {text!r}: (key, expected, got) {bad2[:2]}")
+                    if len(samples) < 3 and len(secs) == 2:
+                        samples.append(text)
+    finally:
+        if saved_env is None:
+            os.environ.pop(REDUN_CONFIG_ENV, None)
+        else:
+            os.environ[REDUN_CONFIG_ENV] = saved_env
     return {"coverage": {
-        "evaluations": n, "distinct_nontrivial": len(distinct), "exhaustive": True,
+        "evaluations": n, "distinct_nontrivial": len(distinct), "config_dir_combinations": len(combos), "exhaustive": True,
         "rule": "INI texts the loader accepts: every subset of <=3 sections from {a, c.d, c.e, scheduler, x.y.z} x pairs of value kinds "
         "(plain, number, empty, escaped dollars, cross-section interpolation, percent, config-dir paths, ':' '=' '#', spaces, unicode); oracle: "
-        "Config(config_dict=c.get_config_dict()) has the same (section path, key) set and the same effective values; replace_config_dir "
-        "changes exactly the values containing the local config dir; distinct = (section set, value kinds)",
+        "Config(config_dict=c.get_config_dict()) has the same (section path, key) set and the same effective values; with replace_config_dir, for 6 "
+        "(configured local dir, replacement) combinations (default; a literal '$' in either; trailing slash; './' segment; replacement containing the "
+        "dir): reading the rewritten dict back gives the original effective values with exactly the configured dir replaced; distinct = (section "
+        "set, value kinds, combination)",
         "samples": samples or ["[a]\nx = v\n"],
     }, "assumptions": ["a section and its own sub-section (c and c.d) are not mixed; texts whose original values cannot be read are skipped"]}
